@@ -566,11 +566,23 @@ class SFTPFile(BufferedFile):
 
     def _async_response(self, t, msg, num):
         if t == CMD_STATUS:
-            # save exception and re-raise it on next file operation
+            # save exception and re-raise it on next file operation.  EOF is
+            # not an error: a reader that gets that far finds out by itself.
             try:
                 self.sftp._convert_status(msg)
+            except EOFError:
+                pass
             except Exception as e:
                 self._saved_exception = e
+            # the request is finished all the same: forget its extent
+            while True:
+                with self._prefetch_lock:
+                    # spin if in race with _prefetch_thread
+                    if num in self._prefetch_extents:
+                        del self._prefetch_extents[num]
+                        if len(self._prefetch_extents) == 0:
+                            self._prefetch_done = True
+                        break
             return
         if t != CMD_DATA:
             raise SFTPError("Expected data")
